@@ -76,7 +76,7 @@ var jsonCfgPool = []*JSONCfg{nil, nil, {Indent: "\t", SortKeys: false, Width: 0}
 func genOptSpec(t *rapid.T, label string) CfgSpec {
 	s := CfgSpec{Dir: "snaps"}
 	s.Filename = rapid.SampledFrom([]string{"", "f", "g"}).Draw(t, label+"fn")
-	s.Ext = rapid.SampledFrom([]string{"", "", ".txt", ".json"}).Draw(t, label+"ext")
+	s.Ext = rapid.SampledFrom([]string{"", "", ".txt", ".json", "json", "_golden"}).Draw(t, label+"ext") // (an Ext is appended as it is, dot or not)
 	switch rapid.IntRange(0, 3).Draw(t, label+"upd") {
 	case 0:
 		s.Update = boolp(true)
